@@ -760,4 +760,153 @@ def render_table(visited, notes):
 
 def extract_c15_table():
     visited, notes = extract_table()
+    notes = check_all_classes() + notes
     return render_table(visited, notes)
+
+
+# ----------------------------------------------------------------------------------------------
+# source-driven enumeration of every Node / Join class and the attributes its methods assign
+# ----------------------------------------------------------------------------------------------
+# attributes that are assigned from a non-constant expression, are not touched by the effective replace_table chain, and
+# were reviewed as unable to hold a table / term:
+REVIEWED_NO_TABLE = {
+    ("clickhouse.array.Array", "_converter_cls"): "a class", ("clickhouse.array.Array", "_converter_options"): "dict of options",
+    ("clickhouse.array.Array", "_values"): "python values, rendered with str()",
+    ("clickhouse.array.HasAny", "alias"): "str", ("clickhouse.array.HasAny", "schema"): "Schema, not a Table",
+    ("clickhouse.array._AbstractArrayFunction", "alias"): "str", ("clickhouse.array._AbstractArrayFunction", "name"): "str",
+    ("clickhouse.array._AbstractArrayFunction", "schema"): "Schema",
+    ("clickhouse.search_string._AbstractMultiSearchString", "_patterns"): "strings",
+    ("clickhouse.search_string._AbstractSearchString", "_pattern"): "str",
+    ("clickhouse.type_conversion.ToFixedString", "_length"): "int", ("clickhouse.type_conversion.ToFixedString", "alias"): "str",
+    ("clickhouse.type_conversion.ToFixedString", "schema"): "Schema",
+    ("dialects.ClickHouseQueryBuilder", "_sample"): "int", ("dialects.ClickHouseQueryBuilder", "_sample_offset"): "int",
+    ("dialects.FetchNextAndOffsetRowsQueryBuilder", "_limit"): "int", ("dialects.MSSQLQueryBuilder", "_top"): "int",
+    ("dialects.MySQLQueryBuilder", "_for_update_nowait"): "bool", ("dialects.MySQLQueryBuilder", "_for_update_skip_locked"): "bool",
+    ("dialects.MySQLQueryBuilder", "_for_update_of"): "table NAMES (strings), not tables",
+    ("dialects.MySQLQueryBuilder", "_modifiers"): "strings",
+    ("dialects.PostgreSQLQueryBuilder", "_for_update_nowait"): "bool", ("dialects.PostgreSQLQueryBuilder", "_for_update_skip_locked"): "bool",
+    ("dialects.PostgreSQLQueryBuilder", "_for_update_of"): "table NAMES (strings), not tables",
+    ("dialects.VerticaQueryBuilder", "_hint"): "str", ("functions.Cast", "as_type"): "type name", ("functions.Convert", "encoding"): "str",
+    ("queries.AliasedQuery", "name"): "str", ("queries.AliasedQuery", "query"): "rebuilt by QueryBuilder._with handling",
+    ("queries.Join", "how"): "enum", ("queries.JoinOn", "collate"): "str",
+    ("queries.QueryBuilder", "_force_indexes"): "Index terms (names)", ("queries.QueryBuilder", "_use_indexes"): "Index terms (names)",
+    ("queries.QueryBuilder", "_limit"): "int", ("queries.QueryBuilder", "_offset"): "int", ("queries.QueryBuilder", "_subquery_count"): "int",
+    ("queries.QueryBuilder", "_wrapper_cls"): "a class", ("queries.QueryBuilder", "as_keyword"): "bool", ("queries.QueryBuilder", "dialect"): "enum",
+    ("queries.QueryBuilder", "immutable"): "bool", ("queries.QueryBuilder", "wrap_set_operation_queries"): "bool",
+    ("queries.Selectable", "alias"): "str",
+    ("queries.Table", "_for"): "temporal criterion of the table itself (part of Table.__eq__)", ("queries.Table", "_for_portion"): "same",
+    ("queries.Table", "_query_cls"): "a class", ("queries.Table", "_schema"): "Schema", ("queries.Table", "_table_name"): "str",
+    ("queries._SetOperation", "_limit"): "int", ("queries._SetOperation", "_offset"): "int", ("queries._SetOperation", "_wrapper_cls"): "a class",
+    ("terms.ArithmeticExpression", "operator"): "enum", ("terms.AtTimezone", "interval"): "bool", ("terms.AtTimezone", "zone"): "str",
+    ("terms.BasicCriterion", "comparator"): "enum", ("terms.Field", "name"): "str", ("terms.Function", "name"): "str",
+    ("terms.Function", "schema"): "Schema, not a Table", ("terms.Index", "name"): "str",
+    ("terms.Interval", "dialect"): "enum", ("terms.Interval", "is_negative"): "bool", ("terms.Interval", "largest"): "str",
+    ("terms.Interval", "quarters"): "int", ("terms.Interval", "smallest"): "str", ("terms.Interval", "weeks"): "int",
+    ("terms.JSON", "value"): "python value", ("terms.ListParameter", "_parameters"): "collected values",
+    ("terms.LiteralValue", "_value"): "str", ("terms.NestedCriterion", "comparator"): "enum",
+    ("terms.NestedCriterion", "nested_comparator"): "enum", ("terms.Parameter", "_placeholder"): "str/int",
+    ("terms.ParameterValueWrapper", "_parameter"): "Parameter", ("terms.PseudoColumn", "name"): "str", ("terms.Term", "alias"): "str",
+    ("terms.WindowFrameAnalyticFunction", "bound"): "Edge objects holding numbers", ("terms.WindowFrameAnalyticFunction", "frame"): "str",
+}
+# attributes that CAN hold a table / term and are still not visited: the open findings
+KNOWN_UNVISITED = {
+    ("clickhouse.array.HasAny", "_left_array"): "C15-ch-hasany-left", ("clickhouse.array.HasAny", "_right_array"): "C15-ch-hasany-right",
+    ("clickhouse.array._AbstractArrayFunction", "_array"): "C15-ch-arrayfunction-raises",
+    ("clickhouse.type_conversion.ToFixedString", "_field"): "C15-ch-tofixedstring-field",
+    ("dialects.PostgreSQLQueryBuilder", "_using"): "C15-pg-using",
+    ("terms.BitwiseAndCriterion", "value"): "C15-bitand-value", ("terms.Values", "field"): "C15-values-field",
+}
+
+
+def scan_classes():
+    """[(qualified class name, attr)] assigned from a non-constant expression somewhere in the defining class and not
+    touched by that class's effective replace_table chain (the LAST definition in a class body counts)"""
+    import importlib
+    import pkgutil
+    import re
+    import pypika
+    from pypika.terms import Node
+    from pypika.queries import Join
+    mods = []
+    for mi in pkgutil.walk_packages(pypika.__path__, "pypika."):
+        if ".tests" in mi.name:
+            continue
+        mods.append(importlib.import_module(mi.name))
+    classes = set()
+    for mo in mods:
+        for o in vars(mo).values():
+            if inspect.isclass(o) and o.__module__.startswith("pypika") and issubclass(o, (Node, Join)):
+                classes.add(o)
+
+    def cls_ast(c):
+        tree = _module_ast(inspect.getsourcefile(c))
+        for n in ast.walk(tree):
+            if isinstance(n, ast.ClassDef) and n.name == c.__name__:
+                return n
+        return None
+
+    def own_attrs(c):
+        out = {}
+        n = cls_ast(c)
+        if n is None:
+            return out
+        for fn in n.body:
+            if isinstance(fn, ast.FunctionDef) and fn.name != "replace_table":
+                for st in ast.walk(fn):
+                    tg, v = [], None
+                    if isinstance(st, ast.Assign):
+                        tg, v = st.targets, st.value
+                    elif isinstance(st, ast.AugAssign):
+                        tg, v = [st.target], st.value
+                    for t in tg:
+                        for tt in (t.elts if isinstance(t, ast.Tuple) else [t]):
+                            if isinstance(tt, ast.Attribute) and isinstance(tt.value, ast.Name) and tt.value.id == "self":
+                                out.setdefault(tt.attr, []).append(ast.unparse(v))
+                    if (isinstance(st, ast.Call) and isinstance(st.func, ast.Attribute) and st.func.attr in ("append", "add", "extend")
+                            and isinstance(st.func.value, ast.Attribute) and isinstance(st.func.value.value, ast.Name)
+                            and st.func.value.value.id == "self"):
+                        out.setdefault(st.func.value.attr, []).append("append " + (ast.unparse(st.args[0]) if st.args else ""))
+        return out
+
+    def touched(c):
+        vis = set()
+        for k in c.__mro__:
+            if "replace_table" in k.__dict__:
+                n = cls_ast(k)
+                fn = [f for f in n.body if isinstance(f, ast.FunctionDef) and f.name == "replace_table"][-1]
+                for st in ast.walk(fn):
+                    if isinstance(st, ast.Assign):
+                        for t in st.targets:
+                            if isinstance(t, ast.Attribute) and isinstance(t.value, ast.Name):
+                                vis.add(t.attr)
+                    if isinstance(st, ast.Call) and isinstance(st.func, ast.Attribute) and st.func.attr in ("add", "remove") \
+                            and isinstance(st.func.value, ast.Attribute):
+                        vis.add(st.func.value.attr)
+                if "super().replace_table" in ast.unparse(fn):
+                    continue
+                break
+        return vis
+    const = re.compile(r"^(None|True|False|\[\]|\{\}|set\(\)|\(\)|'[^']*'|\"[^\"]*\"|-?\d+(\.\d+)?|dict\(\)|list\(\)|float\(.*\)|int\(.*\)|append ''|)$")
+    out = []
+    for c in sorted(classes, key=lambda c: (c.__module__, c.__name__)):
+        vis = touched(c)
+        for a, rhs in sorted(own_attrs(c).items()):
+            if a in vis or all(const.match(r) for r in rhs):
+                continue
+            out.append(("%s.%s" % (c.__module__.split(".", 1)[-1], c.__name__), a))
+    return out, len(classes)
+
+
+def check_all_classes():
+    """fail closed on an attribute nobody has looked at; returns the notes for the generated file"""
+    cands, n = scan_classes()
+    unknown = [c for c in cands if c not in REVIEWED_NO_TABLE and c not in KNOWN_UNVISITED]
+    if unknown:
+        raise ExtractError("attributes assigned by Node/Join classes that no replace_table touches and that were never reviewed: %s"
+                           % unknown)
+    still = [c for c in cands if c in KNOWN_UNVISITED]
+    notes = ["source-driven scan: %d Node/Join classes; %d attributes are assigned from non-constant expressions and not touched by "
+             "the effective replace_table; %d of them reviewed as unable to hold a table, %d still open:"
+             % (n, len(cands), len(cands) - len(still), len(still))]
+    notes += ["  open: %s.%s (%s)" % (c[0], c[1], KNOWN_UNVISITED[c]) for c in still]
+    return notes
